@@ -117,6 +117,11 @@ theorem add_correct (mode : Mode) (s1 : Bool) (c1 : Nat) (e1 : Int) (s2 : Bool) 
   rw [h]
   exact addFin_correct mode s1 c1 e1 s2 c2 e2 (min e1 e2)
 
+example : addD .rne (.fin false 1 0) (.fin false 25 (-1)) = (.fin false 35 (-1), 0) := by decide +kernel
+example : addD .rdn (.fin false 1 0) (.fin true 10 (-1)) = (.fin true 0 (-1), 0) := by decide +kernel
+example : addD .rne (.fin false (P34 - 1) 0) (.fin false 6 (-1)) = (.fin false P33 1, fInexact) := by
+  decide +kernel
+
 /-- **Subtraction is correctly rounded**: as `add_correct`, for the exact difference; an exact zero
 difference has the sign of `x + (-y)` by the IEEE rule. -/
 theorem sub_correct (mode : Mode) (s1 : Bool) (c1 : Nat) (e1 : Int) (s2 : Bool) (c2 : Nat) (e2 : Int) :
@@ -128,6 +133,8 @@ theorem sub_correct (mode : Mode) (s1 : Bool) (c1 : Nat) (e1 : Int) (s2 : Bool) 
     rw [fval_not]; ring
   rw [h, hv]
   exact add_correct mode s1 c1 e1 (!s2) c2 e2
+
+example : subD .rne (.fin false 1 0) (.fin false 25 (-1)) = (.fin true 15 (-1), 0) := by decide +kernel
 
 /-- the clamp on the exponent of an exact zero is the identity for in-range operands -/
 theorem zeroAt_min (s : Bool) {e1 e2 : Int} (h1 : eMin ≤ e1) (h1' : e1 ≤ eMax) (h2 : eMin ≤ e2) (h2' : e2 ≤ eMax) :
@@ -174,6 +181,12 @@ theorem mul_correct (mode : Mode) (s1 : Bool) (c1 : Nat) (e1 : Int) (s2 : Bool) 
       rw [abs_mul, abs_fval, abs_fval, zpow_add₀ ten_ne]; push_cast; ring
     rw [hfin, if_neg hc, hsign, habs]
     exact finish_spec mode _ _ 1 _ _ (Nat.pos_of_ne_zero hc) (by omega)
+
+example : mulD .rne (.fin false 12 (-1)) (.fin true 5 (-1)) = (.fin true 60 (-2), 0) := by decide +kernel
+example : mulD .rup (.fin false (P34 - 1) 6111) (.fin false 2 0) = (.inf false, fOverflow ||| fInexact) := by
+  decide +kernel
+example : mulD .rne (.fin false 1 (-6176)) (.fin false 1 (-1)) = (.fin false 0 (-6176), fUnderflow ||| fInexact) := by
+  decide +kernel
 
 /-! ### division -/
 
@@ -225,5 +238,152 @@ theorem div_correct (mode : Mode) (s1 : Bool) (c1 : Nat) (e1 : Int) (s2 : Bool) 
     refine ⟨hsign, ?_⟩
     rw [hfin, if_neg hc1, hsign, habs]
     exact finish_spec mode _ _ _ _ _ (Nat.pos_of_ne_zero hc1) (Nat.pos_of_ne_zero hc2)
+
+example : divD .rne (.fin false 1 0) (.fin true 3 0) =
+    (.fin true 3333333333333333333333333333333333 (-34), fInexact) := by decide +kernel
+example : divD .rne (.fin false 10 0) (.fin false 4 0) = (.fin false 25 (-1), 0) := by decide +kernel
+
+/-! ### square root -/
+
+theorem two_halfFloor {e : Int} (h : e % 2 = 0) : 2 * halfFloor e = e := by
+  unfold halfFloor
+  rw [Int.fdiv_eq_ediv_of_nonneg _ (by omega)]
+  omega
+
+/-- scaled: all the points strictly between `r·10^E` and `(r+1)·10^E` are on the same side of every
+rounding boundary at any exponent above `E` -/
+theorem sameSide_scaled (r : Nat) {E x : Int} (hx : E + 1 ≤ x) {t t' : ℚ} (ht0 : 0 < t) (ht1 : t < 1)
+    (ht0' : 0 < t') (ht1' : t' < 1) :
+    SameSide (((r : ℚ) + t) * (10 : ℚ) ^ E / (10 : ℚ) ^ x) (((r : ℚ) + t') * (10 : ℚ) ^ E / (10 : ℚ) ^ x) := by
+  have hpE : (10 : ℚ) ^ E ≠ 0 := (zpow_pos ten_pos _).ne'
+  have e1 : (10 : ℚ) ^ x = (10 : ℚ) ^ E * (2 * ((5 * 10 ^ (x - E - 1).toNat : Nat) : ℚ)) := by
+    have : x = E + ((x - E - 1) + 1) := by ring
+    rw [this, zpow_add₀ ten_ne, zpow_add₀ ten_ne, zpow_toNat (by omega : 0 ≤ x - E - 1)]
+    have : E + (x - E - 1 + 1) - E - 1 = x - E - 1 := by ring
+    rw [this]; push_cast; ring
+  have e2 : ∀ s : ℚ, ((r : ℚ) + s) * (10 : ℚ) ^ E / (10 : ℚ) ^ x =
+      ((r : ℚ) + s) / (2 * ((5 * 10 ^ (x - E - 1).toNat : Nat) : ℚ)) := by
+    intro s; rw [e1]; field_simp
+  rw [e2, e2]
+  exact sameSide_between r _ (Nat.mul_pos (by omega) (Nat.pow_pos (by omega))) ht0 ht1 ht0' ht1'
+
+
+/-- unfolding of `sqrtD` on a positive finite operand -/
+theorem sqrtD_pos (mode : Mode) (c : Nat) (e : Int) (hc : c ≠ 0) :
+    ∃ (N r : Nat) (E : Int), r = isqrt N ∧ 10 ^ 74 ≤ N ∧ fval false c e = (N : ℚ) * (10 : ℚ) ^ (2 * E) ∧
+      sqrtD mode (.fin false c e) =
+        if r * r = N then finish mode false r 1 E (halfFloor e) else finish mode false (4 * r + 1) 4 E (halfFloor e) := by
+  obtain ⟨c', hc'⟩ : ∃ c', c' = if (e % 2 != 0) = true then c * 10 else c := ⟨_, rfl⟩
+  obtain ⟨e', he'⟩ : ∃ e' : Int, e' = if (e % 2 != 0) = true then e - 1 else e := ⟨_, rfl⟩
+  refine ⟨c' * 10 ^ (2 * 37), isqrt (c' * 10 ^ (2 * 37)), halfFloor e' - (37 : Nat), rfl, ?_, ?_, ?_⟩
+  · have : 1 ≤ c' := by rw [hc']; split <;> omega
+    calc 10 ^ 74 = 1 * 10 ^ (2 * 37) := by norm_num
+      _ ≤ c' * 10 ^ (2 * 37) := Nat.mul_le_mul_right _ this
+  · have hev : e' % 2 = 0 := by
+      rw [he']; split
+      · rename_i h; simp only [bne_iff_ne, ne_eq] at h; omega
+      · rename_i h; simp only [bne_iff_ne, ne_eq, not_not] at h; exact h
+    have h2 := two_halfFloor hev
+    have hE : 2 * (halfFloor e' - ((37 : Nat) : Int)) = e' - 74 := by push_cast; omega
+    rw [hE, fval_false]
+    have hval : (c : ℚ) * (10 : ℚ) ^ e = (c' : ℚ) * (10 : ℚ) ^ e' := by
+      rw [hc', he']
+      split
+      · have : e = (e - 1) + 1 := by ring
+        rw [this, zpow_add₀ ten_ne]; push_cast
+        have : e - 1 + 1 - 1 = e - 1 := by ring
+        rw [this]; ring
+      · rfl
+    rw [hval]
+    have : e' = 74 + (e' - 74) := by ring
+    rw [this, zpow_add₀ ten_ne]
+    have : 74 + (e' - 74) - 74 = e' - 74 := by ring
+    rw [this]; push_cast; ring
+  · rw [hc', he']
+    simp only [sqrtD, hc, if_false, Bool.false_eq_true]
+
+/-- **Square root is correctly rounded.**  For a positive finite operand of value `V`: either `V` has a
+rational square root `v`, and the result is `v` delivered exactly with the cohort exponent closest to
+`⌊e/2⌋` or correctly rounded (`FinishSpec`); or `√V` lies strictly inside an interval `(a, b)`
+(`a² < V < b²`) so narrow that every number in it has one and the same correct delivery, and the result is
+that delivery: it is what `FinishSpec` demands for *every* rational `ρ` in `(a, b)`, hence for `√V`. -/
+theorem sqrt_correct (mode : Mode) (c : Nat) (e : Int) (hc : c ≠ 0) :
+    let V : ℚ := fval false c e
+    let out := sqrtD mode (.fin false c e)
+    (∃ v : ℚ, 0 < v ∧ v * v = V ∧ FinishSpec mode false v (halfFloor e) out) ∨
+    (∃ a b : ℚ, 0 < a ∧ a < b ∧ a * a < V ∧ V < b * b ∧
+        ∀ ρ : ℚ, a < ρ → ρ < b → FinishSpec mode false ρ (halfFloor e) out) := by
+  intro V out
+  obtain ⟨N, r, E, hr, hN, hV, hout⟩ := sqrtD_pos mode c e hc
+  obtain ⟨s1, s2⟩ := isqrt_spec N
+  rw [← hr] at s1 s2
+  have hpE : (0 : ℚ) < (10 : ℚ) ^ E := zpow_pos ten_pos _
+  have h2E : (10 : ℚ) ^ (2 * E) = (10 : ℚ) ^ E * (10 : ℚ) ^ E := by
+    rw [← zpow_add₀ ten_ne]; congr 1; ring
+  have hV' : V = (N : ℚ) * ((10 : ℚ) ^ E * (10 : ℚ) ^ E) := by rw [← h2E]; exact hV
+  by_cases hsq : r * r = N
+  · left
+    have hr0 : 0 < r := by
+      rcases Nat.eq_zero_or_pos r with h | h
+      · rw [h] at hsq; omega
+      · exact h
+    have hrq : (0 : ℚ) < r := by exact_mod_cast hr0
+    refine ⟨(r : ℚ) / ((1 : Nat) : ℚ) * (10 : ℚ) ^ E, by positivity, ?_, ?_⟩
+    · rw [hV', ← hsq]; push_cast; ring
+    · show FinishSpec _ _ _ _ (sqrtD mode (.fin false c e))
+      rw [hout, if_pos hsq]
+      exact finish_spec mode false r 1 E _ hr0 (by omega)
+  · right
+    have s1' : r * r < N := by omega
+    have hr37 : 10 ^ 37 ≤ r := by
+      by_contra hlt
+      have : (r + 1) * (r + 1) ≤ 10 ^ 37 * 10 ^ 37 := Nat.mul_self_le_mul_self (by omega)
+      have e74 : (10 : Nat) ^ 37 * 10 ^ 37 = 10 ^ 74 := by norm_num
+      omega
+    have hr37q : (10 : ℚ) ^ (37 : ℤ) ≤ (r : ℚ) := by
+      have : ((10 ^ 37 : Nat) : ℚ) ≤ (r : ℚ) := by exact_mod_cast hr37
+      rw [zpow_toNat (by norm_num)]; exact this
+    have hrq : (0 : ℚ) < r := lt_of_lt_of_le (zpow_pos ten_pos _) hr37q
+    have big : ∀ t : ℚ, 0 < t → (10 : ℚ) ^ (37 + E) ≤ ((r : ℚ) + t) * (10 : ℚ) ^ E := by
+      intro t ht
+      rw [zpow_add₀ ten_ne]
+      exact mul_le_mul_of_nonneg_right (by linarith) hpE.le
+    -- the model's representative of the interval: r + 1/4
+    have hspec := finish_spec mode false (4 * r + 1) 4 E (halfFloor e) (by omega) (by omega)
+    have hρ0 : ((4 * r + 1 : Nat) : ℚ) / ((4 : Nat) : ℚ) * (10 : ℚ) ^ E = ((r : ℚ) + 1 / 4) * (10 : ℚ) ^ E := by
+      push_cast; ring
+    rw [hρ0] at hspec
+    refine ⟨(r : ℚ) * (10 : ℚ) ^ E, ((r : ℚ) + 1) * (10 : ℚ) ^ E, by positivity, ?_, ?_, ?_, ?_⟩
+    · exact mul_lt_mul_of_pos_right (by linarith) hpE
+    · have : ((r * r : Nat) : ℚ) < (N : ℚ) := by exact_mod_cast s1'
+      push_cast at this
+      rw [hV']
+      have hpp : (0 : ℚ) < (10 : ℚ) ^ E * (10 : ℚ) ^ E := by positivity
+      calc (r : ℚ) * (10 : ℚ) ^ E * ((r : ℚ) * (10 : ℚ) ^ E) = (r : ℚ) * r * ((10 : ℚ) ^ E * (10 : ℚ) ^ E) := by ring
+        _ < (N : ℚ) * ((10 : ℚ) ^ E * (10 : ℚ) ^ E) := mul_lt_mul_of_pos_right this hpp
+    · have : (N : ℚ) < (((r + 1) * (r + 1) : Nat) : ℚ) := by exact_mod_cast s2
+      push_cast at this
+      rw [hV']
+      have hpp : (0 : ℚ) < (10 : ℚ) ^ E * (10 : ℚ) ^ E := by positivity
+      calc (N : ℚ) * ((10 : ℚ) ^ E * (10 : ℚ) ^ E) < ((r : ℚ) + 1) * ((r : ℚ) + 1) * ((10 : ℚ) ^ E * (10 : ℚ) ^ E) :=
+            mul_lt_mul_of_pos_right this hpp
+        _ = ((r : ℚ) + 1) * (10 : ℚ) ^ E * (((r : ℚ) + 1) * (10 : ℚ) ^ E) := by ring
+    · intro ρ h1 h2
+      obtain ⟨t, ht⟩ : ∃ t : ℚ, t = ρ / (10 : ℚ) ^ E - r := ⟨_, rfl⟩
+      have hρ : ρ = ((r : ℚ) + t) * (10 : ℚ) ^ E := by rw [ht]; field_simp; ring
+      have ht0 : 0 < t := by
+        rw [ht, sub_pos, lt_div_iff₀ hpE]; exact h1
+      have ht1 : t < 1 := by
+        rw [ht, sub_lt_iff_lt_add, div_lt_iff₀ hpE]; linarith
+      show FinishSpec _ _ _ _ (sqrtD mode (.fin false c e))
+      rw [hout, if_neg hsq, hρ]
+      refine FinishSpec_transfer (E := E) (big _ (by norm_num)) (big _ ht0) ?_ hspec
+      intro x hx
+      exact sameSide_scaled r hx (by norm_num) (by norm_num) ht0 ht1
+
+example : sqrtD .rne (.fin false 2 0) = (.fin false 1414213562373095048801688724209698 (-33), fInexact) := by
+  decide +kernel
+example : sqrtD .rne (.fin false 4 0) = (.fin false 2 0, 0) := by decide +kernel
+
 
 end Dec.C01Q
